@@ -503,9 +503,30 @@ fn run_views_inner<T: Elem>(beh: &[Value]) -> Option<Value> {
                             Held::FfiOwn(v) => v.iter_mut().count(),
                             _ => l,
                         };
+                        // the slice a view dereferences to is a Rust REFERENCE: its data pointer is never NULL, also for a {NULL, 0} view
+                        // (a NULL inside a reference is invisible to is_empty()/iteration, but `Some(slice)` reads back as `None`)
+                        let null_ref = match &mut held {
+                            Held::FfiImm(v) => { let r: &[T] = &**v; r.as_ptr().is_null() || Some(r).is_none() }
+                            Held::FfiMut(v) => {
+                                let a = { let r: &[T] = &**v; r.as_ptr().is_null() || Some(r).is_none() };
+                                let b = { let r: &mut [T] = &mut **v; r.as_ptr().is_null() };
+                                a || b
+                            }
+                            Held::FfiOwn(v) => {
+                                let a = { let r: &[T] = &**v; r.as_ptr().is_null() };
+                                let b = { let r: &mut [T] = &mut **v; r.as_ptr().is_null() };
+                                a || b
+                            }
+                            Held::FfiStr(v) => { let r: &str = &**v; r.as_ptr().is_null() }
+                            Held::FfiOwnStr(v) => { let r: &str = &**v; r.as_ptr().is_null() }
+                            _ => false,
+                        };
                         let mut seen = see_ffi(&held, orig);
                         seen.contents = s;
                         seen.len = if lm != l { lm } else { l }; // a DerefMut that disagrees with Deref shows as a state difference
+                        if null_ref {
+                            seen.ptr = "NULL inside a reference";
+                        }
                         Ok(Some(seen))
                     }
                     "WriteView" => {
